@@ -15,7 +15,9 @@
 From Coq Require Import NArith List Bool String.
 Import ListNotations.
 From Verif.model Require Import AgreementTypes AgreementVotes AgreementProposals AgreementPlayer.
-From Verif.proofs Require Import AgreementLemmas AgreementVoteProofs AgreementTreeProofs AgreementC03Proofs.
+From Verif.lib Require Import Term.
+From Verif.model Require Import AgreementRender AgreementCheck.
+From Verif.proofs Require Import AgreementLemmas AgreementVoteProofs AgreementTreeProofs AgreementC03Proofs AgreementSpecOkProofs.
 Open Scope N_scope.
 
 (* every ensureAction, along every event sequence, carries a cert bundle for its payload made of
@@ -51,6 +53,17 @@ Theorem C03_step_invariant : forall pm D st e,
   wp (step pm st e) (fun '(st', acts) => RInv pm D (s_rt st') /\ acts_ok pm D acts).
 Proof. exact step_spec. Qed.
 Print Assumptions C03_step_invariant.
+
+(* soundness of the executable oracle used on the implementation's observations (spec_ok of check_c03):
+   if the observed ensureAction (as rendered on the wire) satisfies the property w.r.t. the delivered
+   votes dv, [ensure_ok] answers true -- so a [false] answer (verdict code 3) is a real violation.
+   [cred_consistent]: a sender has one credential weight per (round, period, step). *)
+Theorem C03_spec_ok_sound : forall pm dv premise pl c,
+  cred_consistent dv ->
+  good_bundle pm dv c -> ub_step c = s_cert -> ub_val c = pl -> ub_rnd c = v_rnd pl ->
+  ensure_ok pm dv premise (r_action (AEnsure pl c)) = true.
+Proof. exact spec_ok_c03_sound_proof. Qed.
+Print Assumptions C03_spec_ok_sound.
 
 (* ---------- non-vacuity: a concrete run satisfies the premise and commits a block ---------- *)
 Definition ex_pm := mkParams 2 2 2 2 2 2 3000 4000 4000 17000 2000 300000 true 8.
